@@ -61,7 +61,7 @@ FieldChoices(f) == ((IF Kind(Prog, f.t) = "struct" /\ f.req # "optional" THEN {}
 RECURSIVE Prod(_)
 Prod(fs) == IF fs = <<>> THEN {<<>>}
             ELSE {<<[id |-> Head(fs).id, v |-> c]>> \o r : c \in FieldChoices(Head(fs)), r \in Prod(Tail(fs))}
-Top == Prog.structs \o Synth(Prog)
+Top == [i \in Idx(Prog.structs) |-> AsParsed(Prog.structs[i])] \o Synth(Prog)
 Values(s) == IF s.kind = "union"
              THEN UNION {{[i \in Idx(s.fields) |-> [id |-> s.fields[i].id, v |-> IF i = j THEN c ELSE Unset]] :
                             c \in FieldChoices(s.fields[j]) \ {Unset}} : j \in Idx(s.fields)}
